@@ -18,8 +18,11 @@ func Stat(d *go9p.Dir) ref9p.Stat {
 		Nuid: d.Uidnum, Ngid: d.Gidnum, Nmuid: d.Muidnum}
 }
 
+// DirSize is put into the (derived) Size field of every Dir built by GDir.
+var DirSize uint16
+
 func GDir(s *ref9p.Stat) *go9p.Dir {
-	return &go9p.Dir{Type: s.Type, Dev: s.Dev, Qid: GQid(s.Qid), Mode: s.Mode, Atime: s.Atime, Mtime: s.Mtime,
+	return &go9p.Dir{Size: DirSize, Type: s.Type, Dev: s.Dev, Qid: GQid(s.Qid), Mode: s.Mode, Atime: s.Atime, Mtime: s.Mtime,
 		Length: s.Length, Name: s.Name, Uid: s.Uid, Gid: s.Gid, Muid: s.Muid, Ext: s.Ext,
 		Uidnum: s.Nuid, Gidnum: s.Ngid, Muidnum: s.Nmuid}
 }
